@@ -38,6 +38,7 @@ import (
 	"strings"
 	"sync"
 	"testing"
+	"time"
 
 	log "github.com/hashicorp/go-hclog"
 	"github.com/openbao/openbao/sdk/v2/logical"
@@ -292,7 +293,11 @@ func (c *c10Case) renderKeyring(kr *Keyring) string {
 	for _, t := range terms {
 		parts = append(parts, fmt.Sprintf("%d=%s", t, c.nameOf(kr.keys[uint32(t)].Value)))
 	}
-	return fmt.Sprintf("kr(%s;%d;%s)", c.nameOf(kr.rootKey), kr.activeTerm, strings.Join(parts, ","))
+	rot := ""
+	if kr.rotationConfig.Interval != 0 {
+		rot = fmt.Sprintf(";rot=%d", int64(kr.rotationConfig.Interval/(24*time.Hour)))
+	}
+	return fmt.Sprintf("kr(%s;%d;%s%s)", c.nameOf(kr.rootKey), kr.activeTerm, strings.Join(parts, ","), rot)
 }
 
 func (c *c10Case) learnKeyring(kr *Keyring) {
@@ -688,6 +693,32 @@ func (c *c10Case) op(who string, f ...string) string {
 				viol = "VerifyRoot accepted a key that is not the root key"
 			}
 			return r
+		case "tick":
+			// CheckBarrierAutoRotate: the bookkeeping tick; it must not touch the in-memory key hierarchy (P9)
+			var before []byte
+			if x.keyring != nil {
+				before = append([]byte(nil), x.keyring.rootKey...)
+			}
+			reason, err := x.CheckBarrierAutoRotate(ctx)
+			if x.keyring != nil && before != nil && !bytes.Equal(x.keyring.rootKey, before) {
+				viol = "CheckBarrierAutoRotate changed the in-memory root key"
+			}
+			switch {
+			case err != nil:
+				return c10Err(err)
+			case reason == "":
+				return "ok"
+			case reason == "reached max operations":
+				return "due:max-ops"
+			}
+			return "due:" + vh.HexS(reason)
+		case "setrot":
+			var d int64
+			fmt.Sscanf(f[1], "%d", &d)
+			return c10Err(x.SetRotationConfig(ctx, KeyRotationConfig{MaxOperations: AbsoluteOperationMaximum, Interval: time.Duration(d) * 24 * time.Hour}))
+		case "heat":
+			x.UnaccountedEncryptions.Store(AbsoluteOperationMaximum + 1)
+			return "ok"
 		case "keyinfo":
 			ki, err := x.ActiveKeyInfo()
 			if err != nil {
@@ -710,6 +741,25 @@ func (c *c10Case) op(who string, f ...string) string {
 			if viol == "" {
 				viol = "panic inside the barrier left its lock held"
 			}
+		}
+	}
+	// P9 (after EVERY operation): a barrier that holds a keyring holds a root key the operator supplied, and the
+	// stored keyring still opens with one of the operator's root keys
+	if viol == "" && !c.dead {
+		for _, wb := range []struct {
+			n string
+			b *AESGCMBarrier
+		}{{"a", c.a}, {"b", c.b}} {
+			if wb.b.keyring != nil && c.nameOf(wb.b.keyring.rootKey) == "?" {
+				viol = "the in-memory root key of barrier " + wb.n + " is not a key the operator supplied (zeroed or corrupted)"
+			}
+		}
+		c.st.mu.Lock()
+		post := c.st.copyData()
+		c.st.mu.Unlock()
+		if c.physRootName(post) == "?" {
+			viol = "the stored keyring no longer opens with any root key the operator supplied"
+			c.dead = true
 		}
 	}
 	c.lastOp = f[0]
@@ -945,6 +995,8 @@ func c10RunCase(t *testing.T, out *vh.Out, rng *vh.Rand, idx int) {
 	for j := 0; j < nOps && !c.dead; j++ {
 		r := rng.Intn(100)
 		switch {
+		case r < 6:
+			c.tickOp()
 		case r < 28:
 			if rng.Chance(4) {
 				c.fail(0)
@@ -992,7 +1044,7 @@ func c10RunCase(t *testing.T, out *vh.Out, rng *vh.Rand, idx int) {
 			c.op("a", "seal")
 			for _, o := range [][]string{{"put", rng.Pick(dataKeys), val()}, {"get", rng.Pick(dataKeys)}, {"del", rng.Pick(dataKeys)}, {"list"},
 				{"rotate"}, {"rotroot", rng.Pick(roots)}, {"keyinfo"}, {"verifyroot", rng.Pick(roots)}, {"chkupgrade"}, {"mkupgrade", "2"},
-				{"rmupgrade", "2"}, {"reloadroot"}, {"setroot", rng.Pick(roots)}, {"get", "core/root-key"}} {
+				{"rmupgrade", "2"}, {"reloadroot"}, {"setroot", rng.Pick(roots)}, {"get", "core/root-key"}, {"tick"}, {"setrot", "1"}} {
 				if rng.Chance(45) {
 					c.op("a", o...)
 				}
@@ -1073,7 +1125,23 @@ func c10RunCase(t *testing.T, out *vh.Out, rng *vh.Rand, idx int) {
 			c.op("a", "setroot", rng.Pick(roots))
 			c.dump()
 		case r < 98:
-			c.op("a", "get", rng.Pick([]string{"core/root-key", "core/shamir-kek", "core/upgrade/1", "core/master"}))
+			switch rng.Intn(5) {
+			case 0:
+				c.op("a", "get", rng.Pick([]string{"core/root-key", "core/shamir-kek", "core/upgrade/1", "core/master"}))
+			case 1:
+				c.op("a", "setrot", fmt.Sprint(rng.Intn(4)))
+				c.nwrites()
+				c.dump()
+			case 2:
+				// over the operation limit: the tick answers "rotate", the caller (core.checkBarrierAutoRotate) rotates
+				c.op("a", "heat")
+				if c.op("a", "tick") == "due:max-ops" {
+					c.op("a", "rotate")
+				}
+				c.dump()
+			default:
+				c.tickOp()
+			}
 		default:
 			if c.a.keyring != nil && c.a.keyring.ActiveTerm() >= 2 {
 				c.op("a", "mkupgrade", fmt.Sprint(2+rng.Intn(int(c.a.keyring.ActiveTerm())-1)))
@@ -1089,6 +1157,34 @@ func c10RunCase(t *testing.T, out *vh.Out, rng *vh.Rand, idx int) {
 		c.op("a", "get", k)
 	}
 	c.dump()
+}
+
+// tickOp: the bookkeeping tick on the active node (sometimes with a storage fault), its crash prefixes, and the
+// consequences the operator would see: VerifyRoot of the current root key, the next persist (a second tick after traffic)
+func (c *c10Case) tickOp() {
+	if c.rng.Chance(8) {
+		c.fail(c.rng.Intn(3))
+	}
+	res := c.op("a", "tick")
+	n := c.nwrites()
+	c.dump()
+	if res == "ok" && n > 0 && !c.dead {
+		c.crashAll(n, "")
+	}
+	if c.rng.Chance(40) && !c.dead {
+		c.st.mu.Lock()
+		d := c.st.copyData()
+		c.st.mu.Unlock()
+		if r := c.physRootName(d); r != "" && r != "?" {
+			c.op("a", "verifyroot", r)
+		}
+	}
+	if c.rng.Chance(30) && !c.dead {
+		c.op("a", "put", "d/a", "7469636b")
+		c.op("a", "tick")
+		c.nwrites()
+		c.dump()
+	}
 }
 
 // cmp: does the standby hold the active node's keyring? (P7 when the standby just completed the upgrade walk)
